@@ -99,8 +99,35 @@ def parseData (size : Nat) (pipe : List UInt8) (data : Bytes) : Except String Ms
   (rdByte "panic:codec" p9.2).bind fun p10 =>
   .ok { seq, mtype := p3.1, method := p5.1, status := st, md, codec := p10.1, body := p10.2, pipe, size }
 
-/-- `rawProto.Unpack` on the input `inp` with read limit `limit`; `cap0` is the capacity of the
-    pooled buffer that `AcquireByteBuffer` happened to return. -/
+/-- last stage of `readMessage` + `Unpack`: the pipe is known; read the remaining `last - (1 + xferLen)`
+    bytes, undo the transfer pipe, parse header and body. `inpLen` = total input length. -/
+def unpackTail (reg : Registry) (size last alloc xferLen inpLen : Nat) (pipe : List UInt8) (r3 : Bytes) : Read :=
+  if last < 1 + xferLen then ⟨.reject "err:badpackage", 5 + xferLen, alloc⟩ else
+  match take? (last - (1 + xferLen)) r3 with
+  | none => ⟨.eof, inpLen, alloc⟩
+  | some (raw, rest) =>
+    match Xfer.onUnpack reg pipe raw with
+    | none => ⟨.reject "err:xfer", 4 + last, alloc⟩
+    | some data =>
+      match parseData size pipe data with
+      | .error e => ⟨.reject e, 4 + last, alloc⟩
+      | .ok m => ⟨.ok m rest, 4 + last, alloc⟩
+
+/-- middle stage: the transfer-pipe length byte and the filter ids (`cap` = capacity of the buffer
+    after `ChangeLen(last)`; `bb.B[:xferLen]` panics beyond it). -/
+def unpackXfer (reg : Registry) (size last cap alloc inpLen : Nat) : Bytes → Read
+  | [] => ⟨.eof, 4, alloc⟩
+  | xl :: r2 =>
+    if cap < xl.toNat then ⟨.reject "panic:cap", 5, alloc⟩ else
+    match take? xl.toNat r2 with
+    | none => ⟨.eof, inpLen, alloc⟩
+    | some (ids, r3) =>
+      match Xfer.append reg [] ids with
+      | none => ⟨.reject "err:filter", 5 + xl.toNat, alloc⟩
+      | some pipe => unpackTail reg size last alloc xl.toNat inpLen pipe r3
+
+/-- `rawProto.Unpack` on the input `inp` (everything that will ever arrive) with read limit
+    `limit`; `cap0` is the capacity of the pooled buffer that `AcquireByteBuffer` happened to return. -/
 def unpack (reg : Registry) (limit cap0 : Nat) (inp : Bytes) : Read :=
   match inp with
   | a :: b :: c :: d :: r1 =>
@@ -109,30 +136,8 @@ def unpack (reg : Registry) (limit cap0 : Nat) (inp : Bytes) : Read :=
     if size < 4 then ⟨.reject "err:badpackage", 4, 4⟩ else
     let last := size - 4
     let cap := if cap0 < last then last else cap0
-    let alloc := max 4 last
-    if cap < 1 then ⟨.reject "panic:cap", 4, alloc⟩ else
-    match r1 with
-    | [] => ⟨.eof, 4, alloc⟩
-    | xl :: r2 =>
-      let xferLen := xl.toNat
-      if cap < xferLen then ⟨.reject "panic:cap", 5, alloc⟩ else
-      match take? xferLen r2 with
-      | none => ⟨.eof, inp.length, alloc⟩
-      | some (ids, r3) =>
-        match Xfer.append reg [] ids with
-        | none => ⟨.reject "err:filter", 5 + xferLen, alloc⟩
-        | some pipe =>
-          if last < 1 + xferLen then ⟨.reject "err:badpackage", 5 + xferLen, alloc⟩ else
-          let n := last - (1 + xferLen)
-          match take? n r3 with
-          | none => ⟨.eof, inp.length, alloc⟩
-          | some (raw, rest) =>
-            match Xfer.onUnpack reg pipe raw with
-            | none => ⟨.reject "err:xfer", 4 + last, alloc⟩
-            | some data =>
-              match parseData size pipe data with
-              | .error e => ⟨.reject e, 4 + last, alloc⟩
-              | .ok m => ⟨.ok m rest, 4 + last, alloc⟩
+    if cap < 1 then ⟨.reject "panic:cap", 4, max 4 last⟩ else
+    unpackXfer reg size last cap (max 4 last) inp.length r1
   | _ => ⟨.eof, inp.length, 4⟩
 
 end Raw
